@@ -179,7 +179,7 @@ def build(spec, extra_ns=None, leaf_hook=None):
     last = len(spec["levels"]) - 1
     all_defs = {}
     for li, lv in enumerate(spec["levels"]):
-        ns = {"name": spec["name"]}
+        ns = {} if spec.get("no_class_name") else {"name": spec["name"]}
         for g in lv["groups"]:
             gd = _group_def(g)
             ns[g["attr"]] = gd
